@@ -217,6 +217,32 @@ var _ I__iter__ = (*Set)(nil)
 
 // var _ richComparison = (*Set)(nil)
 
+// In-place set operators: the set object itself changes, so that
+// every reference to it sees the result (s |= t is not s = s | t)
+func (s *Set) inplace(res Object, err error) (Object, error) {
+	if err != nil || res == NotImplemented {
+		return res, err
+	}
+	s.items = res.(*Set).items
+	return s, nil
+}
+
+func (s *Set) M__ior__(other Object) (Object, error) {
+	return s.inplace(s.M__or__(other))
+}
+
+func (s *Set) M__iand__(other Object) (Object, error) {
+	return s.inplace(s.M__and__(other))
+}
+
+func (s *Set) M__isub__(other Object) (Object, error) {
+	return s.inplace(s.M__sub__(other))
+}
+
+func (s *Set) M__ixor__(other Object) (Object, error) {
+	return s.inplace(s.M__xor__(other))
+}
+
 func (a *Set) M__eq__(other Object) (Object, error) {
 	b, ok := other.(*Set)
 	if !ok {
